@@ -68,6 +68,16 @@ CHECKS["C20"] = {
     "note": COMMON_NOTE + "tempfile / os.remove / manager-list proxies inherited through fork are modelled library behaviour; the harness runs real temp directories, a real Manager and real forked children driven over pipes. FilePool.open failing half-way (a path that cannot be opened) is outside the property as stated.",
     "technique": "Lean 4 proof (inductive invariant over pool histories) + model/code correspondence check",
 }
+CHECKS["C04"] = {
+    "text": "Lean (interleaving model of the pool, all schedules, with begin() or the functor raising anywhere): every worker's event log is begin, item*, end cut off where the worker is — begin exactly once and first, end exactly once and last, present iff the worker exited; chunks processed <= quota; until_all_ready returns only after every listed worker's begin; when the pool context has been left every worker ever created (replaced ones included) has exited. That __exit__ itself terminates is C02's theorem (ExitCap; D19 outside it is a known finding).",
+    "note": COMMON_NOTE + "Modelled, not verified: atomicity of each manager-queue/event/lock operation, sequential consistency of the two progress flags (GIL), the replace queue as an atomic FIFO, fork = copy of the Process object, scheduling-point granularity. Out of reach: OS starvation, wall-clock timeouts, a killed manager, fork-in-thread hazards. D19 (exit blocks on its stop orders for an int work-queue bound below the worker count after unreplaced retirements) is a recorded known finding.",
+    "technique": "Lean 4 proof (inductive invariant over the interleaving model) + step-by-step correspondence under a controlled scheduler with fault injection",
+}
+CHECKS["C18"] = {
+    "text": "Lean: in every history of forks (children, grandchildren), seeks and reads, process ids are unique and two processes that legitimately use their handle never share an open file description (the pid recorded at open differs from a forked child's pid, which therefore reopens); hence after a process positioned itself, whatever the others do in between (seeks, reads, forks, in any interleaving) its next read returns its own line, sequential reads continue line by line, and no operation fails.",
+    "note": COMMON_NOTE + "Modelled, not verified: POSIX fork/open/lseek/read semantics and unique pids while a handle recorded under them lives; mmap position is process memory. The tie runs real forks and real descriptors, with every access split into seek and read by wrappers installed inside the forked processes only.",
+    "technique": "Lean 4 proof (single-user invariant of open file descriptions) + model/code correspondence on controlled real forks",
+}
 NOT_APPLICABLE = []
 NOTES = ("Checks are added as their models, theorems and correspondence harnesses are completed; properties not yet listed are "
          "work in progress (see DESIGN.md), not 'not applicable'.")
